@@ -597,6 +597,15 @@ class ExperimentPackage(StorageStructurePathResolver):
                     sourceFolder, method = sourceFolder.rsplit(':', 1)
                     target_folder_path = os.path.join(targetPath, targetFolder)
 
+                    # The entry must end up under the instance directory even after expanding `..` segments
+                    # and symbolic links (e.g. a folder that an earlier manifest entry populated using :link)
+                    real_instance_path = os.path.realpath(targetPath)
+                    real_target_path = os.path.realpath(target_folder_path)
+                    if os.path.commonpath([real_instance_path, real_target_path]) != real_instance_path \
+                            or real_instance_path == real_target_path:
+                        raise ValueError("Manifest entry %s (%s) should be a path under the instance directory "
+                                         "but it resolves to %s" % (targetFolder, sourceFolder, real_target_path))
+
                     if method == 'copy':
                         logger.info("Copying %s to %s" % (sourceFolder, targetFolder))
                         shutil.copytree(sourceFolder, target_folder_path)
